@@ -135,6 +135,26 @@ func apply(a align.Alignment, g *args) *outcome {
 	if p := h.CheckRect(a); p != "" {
 		o.Hook = "receiver: " + p
 	}
+	if o.Hook == "" && !o.HasOut && a.Length() > 0 {
+		// the rows of the receiver are still independent of each other: a sentinel written into one row shows in no
+		// other row (an operation that makes two rows share storage passes every check on its own result and breaks
+		// the next in-place operation on the same object)
+		for i := range o.After {
+			old := o.After[i].Seq[0]
+			if a.SetSequenceChar(i, 0, 1) != nil {
+				break
+			}
+			for k := range o.After {
+				if got, _ := a.GetSequenceById(k); k != i && len(got) > 0 && got[0] == 1 {
+					o.Hook = fmt.Sprintf("receiver: rows %d (%s) and %d (%s) share their residues after the call (a byte written into the first shows in the second)", i, o.After[i].Name, k, o.After[k].Name)
+				}
+			}
+			a.SetSequenceChar(i, 0, old)
+			if o.Hook != "" {
+				break
+			}
+		}
+	}
 	if o.HasOut {
 		if out == nil || isNilAlign(out) {
 			o.HasOut = false
